@@ -787,6 +787,18 @@ func textMutants(sd seedDoc) []Body {
 		}
 		l = append(l, b)
 	}
+	// after the complete object (trailing content, unlabelled): lines of every
+	// malformed kind with and without their line end, and a second object
+	// that breaks off at every offset
+	trailing := append(append([]string{"X-TRAILER;FOO=bar", "ATTENDEE;CN=\"A B\"", "DTSTART;TZID=Europe/Par", "X", ";", ":", "X;", "X;A", "X;A=", "X;A=\"", "BEGIN:" + strings.TrimPrefix(endTok, "END:")},
+		noColonLines...), malformedParamLines...)
+	for _, t := range trailing {
+		l = append(l, Body{Data: []byte(sd.Text + t), Doc: fam, Mut: "trailing-line-unterminated"},
+			Body{Data: []byte(sd.Text + t + "\r\n"), Doc: fam, Mut: "trailing-line"})
+	}
+	for off := 1; off < len(sd.Text); off++ {
+		l = append(l, Body{Data: []byte(sd.Text + sd.Text[:off]), Doc: fam, Mut: "second-object-truncated"})
+	}
 	// odd but unlabelled
 	l = append(l,
 		Body{Data: []byte(strings.ReplaceAll(sd.Text, "\r\n", "\n")), Doc: fam, Mut: "lf-only"},
